@@ -81,11 +81,42 @@ def rtOp (ws : List String) : String :=
       else "unmodelled"
   | _, _ => "unmodelled"
 
+/-- `reformat fmt=… abc=… hex=…`: read the first alignment, write it in the same format, read the written bytes back, compare -/
+def reformatWith (write : Msa → Bytes) (read : List Bytes → Res Msa × List Bytes) (lines : List Bytes) : String :=
+  match (read lines).1 with
+  | .ok m =>
+    let pre := "open=ok" ++ resToken (.ok m) ++ " wr=ok open2=ok"
+    match (read (splitLines (write m))).1 with
+    | .ok m2 => pre ++ " rd2=ok same=" ++ (if m2.dump == m.dump then "yes" else "no")
+    | .eof => pre ++ " rd2=eof"
+    | .eformat _ => pre ++ " rd2=eformat:msg"
+    | .fault => pre ++ " fault"
+    | .exc => pre ++ " exc"
+  | r => "open=ok" ++ resToken r
+
+def reformatOp (ws : List String) : String :=
+  match arg? ws "fmt", abcOf ((arg? ws "abc").getD "text"), argHex? ws "hex" with
+  | some fmt, some abc, some bytes =>
+    let lines := splitLines bytes
+    if fmt == "afa" then reformatWith (afaWrite abc) (afaRead (afaCfg abc)) lines
+    else if fmt == "a2m" then reformatWith (a2mWrite abc) (a2mRead (a2mCfg abc)) lines
+    else if fmt == "psiblast" then reformatWith (psiblastWrite abc) (psiblastRead (psiblastCfg abc)) lines
+    else if fmt == "clustal" then reformatWith (clustalWrite false abc) (clustalRead false (clustalCfg abc)) lines
+    else if fmt == "clustallike" then reformatWith (clustalWrite true abc) (clustalRead true (clustalCfg abc)) lines
+    else if fmt == "phylip" then reformatWith (phylipWrite false abc) (phylipRead false (phylipCfg abc)) lines
+    else if fmt == "phylips" then reformatWith (phylipWrite true abc) (phylipRead true (phylipCfg abc)) lines
+    else if fmt == "selex" then reformatWith (selexWrite abc) (selexRead (selexCfg abc)) lines
+    else if fmt == "stockholm" then reformatWith (stockholmWrite false abc) (stockholmRead (stockholmCfg abc)) lines
+    else if fmt == "pfam" then reformatWith (stockholmWrite true abc) (stockholmRead (stockholmCfg abc)) lines
+    else "unmodelled"
+  | _, _, _ => "unmodelled"
+
 def step (s : Unit) (line : String) : Unit × String :=
   let ws := words line
   match ws with
   | "rt" :: _ => (s, rtOp ws)
   | "fmt" :: _ => (s, fmtOp ws)
+  | "reformat" :: _ => (s, reformatOp ws)
   | _ => (s, "unmodelled")
 
 def main : IO Unit := runDriver () step
